@@ -111,7 +111,6 @@ func VH_C18_limiter() {
 	zz.Reach("end")
 }
 
-
 // VH_C18_settings: from the settings as written in the hook's configuration to
 // the limiter: CheckAndConvertSettings -> CreateRateLimiter gives exactly one
 // token per executionMinInterval (as written, sub-second and fractional values
